@@ -71,8 +71,41 @@ fn run_inner(sc: &J) -> Result<Option<String>, String> {
                 other => Ok(Some(format!("zag(zig({n}) ++ tail) = {other:?}, consumed {} of {l}", out.len() - rd.len()))),
             }
         }
+        // C13: a sink that accepts at most `accept` bytes per write call (and optionally fails at call `fail_at`)
+        // must receive exactly the bytes a Vec receives, or the call must return Err.
+        "write_datum_faulty_sink" => {
+            let schema = Schema::parse_str(sc["schema"].as_str().ok_or("schema")?).map_err(|e| e.to_string())?;
+            let bytes = jhex(sc, "datum");
+            let value = apache_avro::from_avro_datum(&schema, &mut &bytes[..], None).map_err(|e| e.to_string())?;
+            let accept = sc["accept"].as_u64().unwrap_or(1) as usize;
+            let fail_at = sc["fail_at"].as_u64().map(|x| x as usize);
+            let w = apache_avro::writer::datum::GenericDatumWriter::builder(&schema).build().map_err(|e| e.to_string())?;
+            let mut good = Vec::new();
+            w.write_value_ref(&mut good, &value).map_err(|e| e.to_string())?;
+            let mut sink = FaultySink { data: Vec::new(), accept, fail_at, calls: 0 };
+            match w.write_value_ref(&mut sink, &value) {
+                Ok(_) => if sink.data != good { Ok(Some(format!("write returned Ok but the sink holds {:02x?}, an in-memory buffer holds {:02x?}", sink.data, good))) } else { Ok(None) },
+                Err(_) => Ok(None),
+            }
+        }
         k => Err(format!("unknown scenario kind {k:?}")),
     }
 }
 #[allow(dead_code)]
 fn _u(_: &Value) {}
+
+pub struct FaultySink { pub data: Vec<u8>, pub accept: usize, pub fail_at: Option<usize>, pub calls: usize }
+impl std::io::Write for FaultySink {
+    fn write(&mut self, buf: &[u8]) -> std::io::Result<usize> {
+        let c = self.calls; self.calls += 1;
+        if Some(c) == self.fail_at { return Err(std::io::Error::other("injected")); }
+        let n = buf.len().min(self.accept.max(1));
+        self.data.extend_from_slice(&buf[..n]);
+        Ok(n)
+    }
+    fn flush(&mut self) -> std::io::Result<()> {
+        let c = self.calls; self.calls += 1;
+        if Some(c) == self.fail_at { return Err(std::io::Error::other("injected")); }
+        Ok(())
+    }
+}
